@@ -100,7 +100,7 @@ func genC09Case() *rapid.Generator[C09Case] {
 				// a request planned before a reload and authenticated after it: the reload happens
 				// while the request body is still being read
 				s.TsOffS = rapid.SampledFrom([]int{0, 0, -tol + 1, tol - 1, -1, 1}).Draw(t, "ts_off")
-				s.Mode = rapid.SampledFrom([]string{"same", "touch", "tol-down", "tol-up", "tol-up", "tol-up3", "secret"}).Draw(t, "mode")
+				s.Mode = rapid.SampledFrom([]string{"same", "touch", "tol-down", "tol-up", "tol-up", "tol-up3", "secret", "respell", "respell"}).Draw(t, "mode")
 			case "replay":
 				s.Ref = rapid.IntRange(0, 5).Draw(t, "ref")
 			case "badsig":
@@ -120,7 +120,7 @@ func genC09Case() *rapid.Generator[C09Case] {
 				s.N = rapid.SampledFrom([]int{1, 10, 100, 100, 1000, 1500}).Draw(t, "n")
 				s.Mode = rapid.SampledFrom([]string{"valid", "valid", "badsig"}).Draw(t, "mode")
 			case "reload":
-				s.Mode = rapid.SampledFrom([]string{"same", "touch", "tol-down", "tol-up", "tol-up", "tol-up3", "secret"}).Draw(t, "mode")
+				s.Mode = rapid.SampledFrom([]string{"same", "touch", "tol-down", "tol-up", "tol-up", "tol-up3", "secret", "respell", "respell"}).Draw(t, "mode")
 			}
 			return s
 		})
@@ -247,6 +247,11 @@ func runC09(c C09Case, tolerate bool) *fOutcome {
 			out.Labels["tolerance-raised"] = true
 		case "secret":
 			nr.Secrets = append(append([]string(nil), nr.Secrets...), "k-two")
+		case "respell":
+			// the same key bytes behind another reference (raw: -> env: -> file: -> raw:, and every env / file
+			// reference is a new name): nothing about the secret changed, no nonce may be forgotten
+			// (seed C09-14 reset the replay state of routes that "kept none of their old secret references")
+			nr.Via = map[string]string{"": "env", "env": "file", "file": ""}[nr.Via]
 		}
 		route = nr
 		routes = []AuthRoute{route}
@@ -514,7 +519,7 @@ func genC09ManyNonces() *rapid.Generator[C09Case] {
 		c.Steps = append(c.Steps, C09Step{K: "flood", N: n, Mode: mode})
 		switch rapid.IntRange(0, 3).Draw(t, "mid") {
 		case 0:
-			c.Steps = append(c.Steps, C09Step{K: "reload", Mode: rapid.SampledFrom([]string{"same", "touch", "tol-up", "secret"}).Draw(t, "rmode")})
+			c.Steps = append(c.Steps, C09Step{K: "reload", Mode: rapid.SampledFrom([]string{"same", "touch", "tol-up", "secret", "respell"}).Draw(t, "rmode")})
 		case 1:
 			c.Steps = append(c.Steps, C09Step{K: "adv", Ms: rapid.SampledFrom([]int{1, 1000, 20000}).Draw(t, "ms")})
 		}
